@@ -9,7 +9,8 @@ use std::collections::HashSet;
 use std::sync::atomic::{AtomicU64, Ordering};
 
 use rten_tensor::layout::{MutLayout, OverlapPolicy};
-use rten_tensor::{DynLayout, NdLayout, TensorViewMut};
+use rten_tensor::prelude::*;
+use rten_tensor::{DynLayout, NdLayout, Tensor, TensorViewMut};
 use vp_core::odometer::Odometer;
 use vp_core::{Ctx, Json, Samples, json};
 
@@ -125,6 +126,69 @@ fn check_one(ctx: &Ctx, shape: &[usize], strides: &[usize], counts: &[AtomicU64;
     }
 }
 
+/// Capacity expansion: an owned tensor with a non-aliasing strided layout and spare
+/// capacity may only report `has_capacity(axis, n)` / accept `append` when the grown
+/// layout still maps distinct indices to distinct offsets inside the capacity.
+fn check_expansion(ctx: &Ctx, shape: &[usize], strides: &[usize], n_checked: &AtomicU64) {
+    if shape.iter().any(|&d| d == 0) || aliases(shape, strides) {
+        return;
+    }
+    let Some(maxo) = max_offset_u128(shape, strides) else { return };
+    let len = maxo as usize + 1;
+    if len > 64 {
+        return;
+    }
+    const CAP: usize = 96;
+    let mut data: Vec<i32> = Vec::with_capacity(CAP);
+    data.extend(0..len as i32);
+    let Ok(Ok(mut t)) = vp_core::catch(|| Tensor::<i32>::from_data_with_strides(shape, data, strides)) else { return };
+    for axis in 0..shape.len() {
+        for grow in 1..=2usize {
+            let new_size = shape[axis] + grow;
+            let mut ns = shape.to_vec();
+            ns[axis] = new_size;
+            let fits = max_offset_u128(&ns, strides).map(|m| m < CAP as u128).unwrap_or(true);
+            let sound = fits && !aliases(&ns, strides);
+            n_checked.fetch_add(1, Ordering::Relaxed);
+            let case = || json!({"expansion": true, "shape": shape, "strides": strides.iter().map(|s| s.to_string()).collect::<Vec<_>>(), "axis": axis, "new_size": new_size});
+            match vp_core::catch(|| t.has_capacity(axis, new_size)) {
+                Ok(true) if !sound => {
+                    ctx.violation(
+                        format!("has_capacity accepts an expansion whose layout {} [axis size {}]", if fits { "aliases" } else { "exceeds the capacity" }, if shape[axis] > 1 { "> 1" } else { "1" }),
+                        case(),
+                        format!("shape {shape:?} strides {strides:?} capacity {CAP}: growing axis {axis} to {new_size}"),
+                    );
+                }
+                _ => {}
+            }
+            if grow == 1 {
+                // append one slice along `axis`; on success the tensor must still be alias-free
+                let mut os = shape.to_vec();
+                os[axis] = 1;
+                let other = Tensor::<i32>::from_data(&os, vec![7i32; os.iter().product()]);
+                let before = t.clone();
+                if let Ok(Ok(())) = vp_core::catch(std::panic::AssertUnwindSafe(|| t.append(axis, &other))) {
+                    if !sound {
+                        ctx.violation(
+                            format!("append succeeds although the grown layout {} [axis size {}]", if fits { "aliases" } else { "exceeds the capacity" }, if shape[axis] > 1 { "> 1" } else { "1" }),
+                            case(),
+                            format!("shape {shape:?} strides {strides:?}: append along axis {axis}"),
+                        );
+                    }
+                }
+                t = before;
+                // `clone` may shrink the capacity: rebuild with the spare capacity
+                let mut data: Vec<i32> = Vec::with_capacity(CAP);
+                data.extend(0..len as i32);
+                match vp_core::catch(|| Tensor::<i32>::from_data_with_strides(shape, data, strides)) {
+                    Ok(Ok(x)) => t = x,
+                    _ => return,
+                }
+            }
+        }
+    }
+}
+
 /// Layouts derived from a contiguous layout by <= 2 of {permute, stepped slice,
 /// index (remove axis), split}: all must be accepted.
 fn derived_layouts(max_rank: usize, max_size: usize) -> Vec<(Vec<usize>, Vec<usize>, String)> {
@@ -196,7 +260,9 @@ pub fn run(ctx: Ctx) -> ! {
     if let Some(p) = &ctx.replay {
         let case = vp_core::read_replay_case(p);
         let (shape, strides) = parse_case(&case);
-        if case.get("derived").is_some() {
+        if case.get("expansion").is_some() {
+            check_expansion(&ctx, &shape, &strides, &counts[0]);
+        } else if case.get("derived").is_some() {
             if !accepted_dyn(&shape, &strides) {
                 ctx.violation("derived layout rejected as overlapping", case.clone(), "replay");
             }
@@ -238,6 +304,24 @@ pub fn run(ctx: Ctx) -> ! {
             samples.push(|| json!({"shape": shape, "strides_alphabet": alpha.iter().map(|s| s.to_string()).collect::<Vec<_>>()}));
         }
     });
+    // Capacity expansion of owned strided tensors (rank <= 3, sizes 1..=3, strides 1..=9).
+    let n_exp = AtomicU64::new(0);
+    {
+        let mut ejobs: Vec<Vec<usize>> = Vec::new();
+        for r in 1..=3usize {
+            for c in Odometer::new(&vec![3; r]) {
+                ejobs.push(c.iter().map(|&i| i + 1).collect());
+            }
+        }
+        let n_exp_ref = &n_exp;
+        vp_core::par::for_each(ejobs.len(), |i| {
+            let shape = &ejobs[i];
+            for sc in Odometer::new(&vec![9; shape.len()]) {
+                let strides: Vec<usize> = sc.iter().map(|&j| j + 1).collect();
+                check_expansion(ctxr, shape, &strides, n_exp_ref);
+            }
+        });
+    }
     // Completeness.
     let derived = derived_layouts(ctx.tier.pick(3, 4), ctx.tier.pick(3, 3));
     let mut seen = HashSet::new();
@@ -277,6 +361,7 @@ pub fn run(ctx: Ctx) -> ! {
         "conservatively_rejected_nonaliasing": counts[2].load(Ordering::Relaxed),
         "accepted_with_real_buffer": counts[3].load(Ordering::Relaxed),
         "derived_layouts_checked_for_completeness": n_derived,
+        "capacity_expansions_checked(has_capacity+append on owned strided tensors with spare capacity)": n_exp.load(Ordering::Relaxed),
     });
     ctx.finish("exploration", cov, vec!["aliasing decided by brute force over all indices with u128 offsets".into()])
 }
